@@ -14,6 +14,8 @@ import Driver.OpsCnetLearn
 import Driver.OpsF32
 import Driver.OpsRatSample
 import Driver.OpsStruct3
+import Driver.OpsLeafQ
+import Driver.OpsGraphIo
 /-
 Line-protocol driver: one JSON object per input line, one answer line per input line.
 Run with `lake env lean --run Driver/Main.lean < ops.jsonl`.
@@ -86,7 +88,9 @@ def handle (st : St) (j : Json) : Except String (St × String) := do
       handleCnetLearn o j,
       handleF32 o j,
       handleRatSample o j,
-      handleStruct3 st.net o j ]
+      handleStruct3 st.net o j,
+      handleLeafQ o j,
+      handleGraphIo o j ]
     match exts.findSome? id with
     | some r => do let a ← r; pure (st, a)
     | none => .error s!"unknown op {o}"
